@@ -2,6 +2,7 @@ CONSTANTS
     Shape <- Shape3
     EpochOrderStrict = FALSE
     CacheSound = FALSE
+    FetchedHashChecked = FALSE
     MaxAlter = 1
     TamperFields = {"resign", "prev", "nextAvk", "nextParams"}
     MsgModes = {"r"}
